@@ -107,13 +107,15 @@ impl BlobStore for MemoryTier {
     }
 
     fn put_verified(&mut self, expected: BlobHash, bytes: &[u8]) -> Result<(), CasError> {
-        // Fast path: blob already stored — skip hashing entirely.
-        if self.blobs.contains_key(&expected) {
-            return Ok(());
-        }
+        // Always verify: the trait contract rejects mismatching bytes even when
+        // `expected` is already stored.
         let computed = blob_hash(bytes);
         if computed != expected {
             return Err(CasError::HashMismatch { expected, computed });
+        }
+        // Already stored: idempotent, nothing to write.
+        if self.blobs.contains_key(&expected) {
+            return Ok(());
         }
         self.byte_count += bytes.len();
         self.blobs.insert(computed, Arc::from(bytes));
